@@ -207,7 +207,7 @@ def run(tier, replay=None):
     known = {k["id"]: k for k in load_known(PROP)}
     known_seen = {}
     violations, disagreements = [], []
-    stats = {"streams": 0, "cases": 0, "terminal": {}, "dispatched_frames": 0, "payload_lengths": {}}
+    stats = {"streams": 0, "cases": 0, "echo_cases": 0, "terminal": {}, "dispatched_frames": 0, "payload_lengths": {}}
     samples = []
     total = 0
     nontrivial = set()
@@ -228,6 +228,11 @@ def run(tier, replay=None):
                 for sg in segmentations(r, s, thorough):
                     cases.append({"cfg": cfg, "segs": [p.hex() for p in sg]})
                     meta.append((si, intended))
+                    if len(sg) > 1 and (thorough or r.random() < 0.5):
+                        # the same segments with outbound traffic in between: every dispatched frame is answered (echo) and the
+                        # stream yields between segments, so the connection loop's select! drops a pending header read
+                        cases.append({"cfg": cfg, "segs": [p.hex() for p in sg], "echo": True})
+                        meta.append((si, intended))
             # every payload length 1..max for one bucket-aligned and the odd configs (sampled in quick)
             for cfg in cfgs[:1] + CONFIGS_ODD:
                 step = 1 if thorough else 37
@@ -244,6 +249,7 @@ def run(tier, replay=None):
                 return
             obs[prof] = o
         total += len(cases)
+        stats["echo_cases"] += len([c for c in cases if c.get("echo")])
         # --- monitors on the implementation
         by_stream = {}
         for i, (c, (si, intended)) in enumerate(zip(cases, meta)):
@@ -272,9 +278,10 @@ def run(tier, replay=None):
                     if got != intended or o["out"]:
                         violations.append((f"well-formed stream not accepted frame-for-frame with opaque payloads ({prof}): dispatched {len(got)} of {len(intended)} frames, wire output {bytes.fromhex(o['out'])[:80]!r}", c))
         for key, lst in by_stream.items():
-            ref = json.dumps(lst[0][1], sort_keys=True)
+            view = lambda o: json.dumps({k: o[k] for k in ("items", "out", "panic")}, sort_keys=True)
+            ref = view(lst[0][1])
             for i, o in lst[1:]:
-                if json.dumps(o, sort_keys=True) != ref:
+                if view(o) != ref:
                     violations.append((f"same byte stream, different segmentation, different behaviour ({key[0]})", {"a": cases[lst[0][0]], "b": cases[i]}))
                     break
         # --- correspondence
@@ -346,7 +353,7 @@ def run(tier, replay=None):
         "checker_cmd": "python3 translator/gen.py && make -C coq -j16 Props/C10.vo Conf/FramingConf.vo && coqc work/assm_C10.v (Print Assumptions)",
         "trusted_base": TRUSTED_BASE, "theorems": THEOREMS, "print_assumptions": closed,
         "evaluations": total, "distinct_nontrivial": len(nontrivial),
-        "rule": "streams of 1-5 frames (payload-bearing kinds with binary/newline/header-like payloads at bucket-boundary lengths, plain requests, oversize headers/payloads, missing newline, EOF mid-frame) x segmentations (whole, 1-byte, random cuts, cuts around every newline; thorough: every 2-way cut) x 6 configurations, run through the real ConnManager::run_connection with a recording dispatcher in debug and release; distinct non-trivial = distinct streams for which at least one frame was dispatched",
+        "rule": "streams of 1-5 frames (payload-bearing kinds with binary/newline/header-like payloads at bucket-boundary lengths, plain requests, oversize headers/payloads, missing newline, EOF mid-frame) x segmentations (whole, 1-byte, random cuts, cuts around every newline; thorough: every 2-way cut) x 6 configurations, run through the real ConnManager::run_connection with a recording dispatcher in debug and release, about half of the multi-segment cases a second time with outbound traffic interleaved (each dispatched frame answered, the stream yielding between segments, so that pending header reads are cancelled by the connection loop's select!); distinct non-trivial = distinct streams for which at least one frame was dispatched",
         "traces_validated_against_impl": total * 2, "disagreements": len(disagreements),
         "distribution": stats, "samples": samples, "known_findings_reproduced": sorted(known_seen), "exhaustive": False,
     }
